@@ -167,6 +167,27 @@ def to_instant(p, default_tz, value=None):
     return d.replace(tzinfo=default_tz).astimezone(UTC)
 
 
+def local_dt(p, default_tz, value=None):
+    """Property -> aware datetime in ITS OWN zone (UTC for Z, the TZID zone, else the default zone)."""
+    v = (value if value is not None else p.value).strip()
+    if re.match(r"^\d{8}$", v):
+        return _dt.datetime.strptime(v, "%Y%m%d").replace(tzinfo=default_tz)
+    m = re.match(r"^(\d{8}T\d{6})(Z)?$", v)
+    d = _dt.datetime.strptime(m.group(1), "%Y%m%dT%H%M%S")
+    if m.group(2):
+        return d.replace(tzinfo=UTC)
+    tzid = p.params.get("TZID")
+    return d.replace(tzinfo=ZoneInfo(tzid[0]) if tzid else default_tz)
+
+
+def plus(p, default_tz, td):
+    """Instant of p + duration: weeks and days are nominal (same wall-clock time on a later day in p's zone, RFC 5545
+    3.3.6 / 3.8.2.5), hours, minutes and seconds are exact."""
+    whole = _dt.timedelta(days=td.days)
+    rest = td - whole
+    return (local_dt(p, default_tz) + whole).astimezone(UTC) + rest
+
+
 # -- section 9.9 ------------------------------------------------------------
 
 
@@ -215,13 +236,13 @@ def comp_overlaps(c, tr, default_tz):
     if row == "E1":
         return start < inst("DTEND") and end > inst("DTSTART")
     if row == "E2":
-        return start < inst("DTSTART") + parse_duration(c.get("DURATION").value) and end > inst("DTSTART")
+        return start < plus(c.get("DTSTART"), default_tz, parse_duration(c.get("DURATION").value)) and end > inst("DTSTART")
     if row in ("E3", "E4"):
         return start <= inst("DTSTART") and end > inst("DTSTART")
     if row == "E5":
-        return start < inst("DTSTART") + day and end > inst("DTSTART")
+        return start < plus(c.get("DTSTART"), default_tz, day) and end > inst("DTSTART")
     if row == "T1":
-        e = inst("DTSTART") + parse_duration(c.get("DURATION").value)
+        e = plus(c.get("DTSTART"), default_tz, parse_duration(c.get("DURATION").value))
         return start <= e and (end > inst("DTSTART") or end >= e)
     if row == "T2":
         return (start < inst("DUE") or start <= inst("DTSTART")) and (end > inst("DTSTART") or end >= inst("DUE"))
@@ -240,7 +261,7 @@ def comp_overlaps(c, tr, default_tz):
     if row == "J1":
         return start <= inst("DTSTART") and end > inst("DTSTART")
     if row == "J2":
-        return start < inst("DTSTART") + day and end > inst("DTSTART")
+        return start < plus(c.get("DTSTART"), default_tz, day) and end > inst("DTSTART")
     if row == "J3":
         return False
     if row == "F1":
